@@ -1,10 +1,247 @@
-(* C10/Proofs.v — lemmas for the C10 theorems (curator half). *)
+(* C10/Proofs.v — lemmas for the C10 theorems, curator half: snapshot / replay / restart agreement. *)
 From Coq Require Import List Arith NArith Bool Lia ZifyN ZifyNat ZifyBool.
-From BLB Require Import Gen.Consts Meta.AMap Meta.Curator.
+From BLB Require Import Gen.Consts Meta.AMap Meta.Curator Meta.CuratorFacts.
 Import ListNotations.
 Open Scope N_scope.
 
-(* Gallina functions are deterministic; the content of this lemma is only that [apply] is a total function of
-   (state, index, command): stated for completeness (apply_is_a_function in DESIGN.md). *)
 Lemma apply_is_a_function_lemma : forall s i c r1 r2, apply s i c = r1 -> apply s i c = r2 -> r1 = r2.
 Proof. intros; congruence. Qed.
+
+(* ---------- durable level ---------- *)
+
+(* every write entry of a history has an index at or below the txn_index the history ends with *)
+Definition covered (d : dstate) (e : N * cmd) : Prop := is_write (snd e) = true -> fst e <= d_index d.
+
+Lemma run_covers : forall cs d d' r, dapply_all d cs = Some (d', r) -> Forall (covered d') cs.
+Proof.
+  induction cs as [|[i c] cs IH]; intros d d' r H; cbn in H; [constructor|].
+  destruct (dapply d i c) as [[d1 res]|] eqn:E; [|discriminate].
+  destruct (dapply_all d1 cs) as [[d2 rs]|] eqn:E2; [|discriminate]. inv H.
+  constructor; [|eauto].
+  unfold covered; cbn. intros Hw. apply dapply_index in E. rewrite Hw in E.
+  apply dapply_all_index_mono in E2. destruct (d_index d <? i) eqn:E3; cbn in E; lia.
+Qed.
+
+Lemma dapply_nonwrite_some : forall d i c, is_write c = false -> exists r, dapply d i c = Some (d, r).
+Proof.
+  intros d i c Hw. unfold dapply. destruct (i <=? d_index d); [eauto|].
+  destruct c; try discriminate; eauto.
+Qed.
+
+(* handing such entries to the replica again changes nothing *)
+Lemma redelivery_noop : forall cs d, Forall (covered d) cs ->
+  exists rs, dapply_all d cs = Some (d, rs) /\ length rs = length cs.
+Proof.
+  induction cs as [|[i c] cs IH]; intros d H; [exists []; auto|].
+  pose proof (Forall_inv H) as H1. pose proof (Forall_inv_tail H) as H2.
+  destruct (IH d H2) as (rs & E & L). cbn [dapply_all].
+  destruct (is_write c) eqn:Hw.
+  - rewrite dapply_skip by (apply H1; exact Hw). rewrite E. exists (r_nil :: rs). cbn. auto.
+  - destruct (dapply_nonwrite_some d i c Hw) as [r Er]. rewrite Er, E. exists (r :: rs). cbn. auto.
+Qed.
+
+(* a step that leaves txn_index alone leaves the database alone *)
+Lemma dapply_same_index : forall d i c d' r, dapply d i c = Some (d', r) -> d_index d' = d_index d -> d' = d.
+Proof.
+  intros d i c d' r H Hi. pose proof (dapply_index _ _ _ _ _ H) as E.
+  destruct (i <=? d_index d) eqn:E1.
+  - rewrite dapply_skip in H by lia. inv H. reflexivity.
+  - destruct (is_write c) eqn:Hw.
+    + assert (d_index d <? i = true) by lia. rewrite H0 in E. cbn in E. lia.
+    + eapply dapply_nonwrite; eauto.
+Qed.
+
+Lemma run_same_index : forall cs d d' r, dapply_all d cs = Some (d', r) -> d_index d' <= d_index d -> d' = d.
+Proof.
+  induction cs as [|[i c] cs IH]; intros d d' r H Hi; cbn in H; [inv H; reflexivity|].
+  destruct (dapply d i c) as [[d1 res]|] eqn:E; [|discriminate].
+  destruct (dapply_all d1 cs) as [[d2 rs]|] eqn:E2; [|discriminate]. inv H.
+  pose proof (dapply_all_index_mono _ _ _ _ E2).
+  pose proof (dapply_index _ _ _ _ _ E) as Ei.
+  assert (d_index d <= d_index d1) by (destruct ((d_index d <? i) && is_write c) eqn:X; lia).
+  assert (d1 = d) by (eapply dapply_same_index; eauto; lia). subst d1.
+  eapply IH; eauto.
+Qed.
+
+Definition drestore (d snap : dstate) : dstate := if d_index snap <=? d_index d then d else snap.
+
+Lemma firstn_skipn_split : forall {A} (l : list A) sf j, (sf <= j)%nat -> (j <= length l)%nat ->
+  skipn sf l = skipn sf (firstn j l) ++ skipn j l.
+Proof.
+  intros A l sf j H1 H2.
+  rewrite <- (firstn_skipn j l) at 1. rewrite skipn_app.
+  rewrite firstn_length_le by lia.
+  replace (sf - j)%nat with 0%nat by lia. reflexivity.
+Qed.
+
+Lemma firstn_firstn_split : forall {A} (l : list A) k j, (k <= j)%nat ->
+  firstn j l = firstn k l ++ skipn k (firstn j l).
+Proof.
+  intros. rewrite <- (firstn_skipn k (firstn j l)) at 1. rewrite firstn_firstn.
+  replace (Nat.min k j) with k by lia. reflexivity.
+Qed.
+
+Lemma Forall_skipn : forall {A} (P : A -> Prop) n l, Forall P l -> Forall P (skipn n l).
+Proof.
+  induction n; intros; cbn; [auto|]. destruct l; [constructor|]. apply IHn. eapply Forall_inv_tail; eauto.
+Qed.
+
+(* the durable heart of replicas_agree: no hypothesis on the commands or their indices *)
+Lemma replicas_agree_durable_lemma :
+  forall (cs : list (N * cmd)) (k j sf : nat) d0 dk rk dj rj dfull rfull,
+    (k <= j)%nat -> (j <= length cs)%nat -> (sf <= j)%nat ->
+    dapply_all d0 (firstn k cs) = Some (dk, rk) ->
+    dapply_all d0 (firstn j cs) = Some (dj, rj) ->
+    dapply_all d0 cs = Some (dfull, rfull) ->
+    drestore dk dj = dj /\
+    exists r', dapply_all dj (skipn sf cs) = Some (dfull, r') /\ skipn (j - sf) r' = skipn j rfull.
+Proof.
+  intros cs k j sf d0 dk rk dj rj dfull rfull Hkj Hj Hsf Hk Hjr Hfull.
+  split.
+  - unfold drestore. destruct (d_index dj <=? d_index dk) eqn:E; [|reflexivity].
+    rewrite (firstn_firstn_split cs k j Hkj) in Hjr.
+    apply dapply_all_app in Hjr. destruct Hjr as (d1 & r1 & r2 & A1 & A2 & _).
+    rewrite Hk in A1. inv A1. symmetry. eapply run_same_index; eauto. lia.
+  - rewrite <- (firstn_skipn j cs) in Hfull.
+    apply dapply_all_app in Hfull. destruct Hfull as (d1 & r1 & r2 & A1 & A2 & A3 & A4).
+    rewrite Hjr in A1. inv A1.
+    pose proof (run_covers _ _ _ _ Hjr) as Hc.
+    destruct (redelivery_noop (skipn sf (firstn j cs)) d1 (Forall_skipn _ _ _ Hc)) as (rs & E & L).
+    exists (rs ++ r2). split.
+    + rewrite (firstn_skipn_split cs sf j Hsf Hj). eapply dapply_all_app_intro; eauto.
+    + rewrite skipn_length, firstn_length_le in L by lia.
+      rewrite skipn_app. rewrite <- L at 1. rewrite skipn_all. cbn [app].
+      replace (j - sf - length rs)%nat with 0%nat by lia. cbn [skipn].
+      rewrite skipn_app. rewrite firstn_length_le in A4 by lia. rewrite <- A4 at 1. rewrite skipn_all.
+      replace (j - length r1)%nat with 0%nat by lia. reflexivity.
+Qed.
+
+(* ---------- process level: the volatile checksum fields and VerifyChecksum ---------- *)
+
+(* every VerifyChecksum of the history carries the checksum that the ChecksumCommand at that index returned
+   (ConsistencyCheck builds it from the ChecksumResult), and never names the handler's initial index *)
+Definition ck_consistent (cs : list (N * cmd)) : Prop :=
+  forall i1 sb sr n ock i2 ix ck,
+    In (i1, CChecksum sb sr n ock) cs -> In (i2, CVerify ix ck) cs -> ix = i1 -> ck = ock.
+Definition verify_not_initial (cs : list (N * cmd)) : Prop :=
+  forall i ix ck, In (i, CVerify ix ck) cs -> ix <> v_ckidx v_init.
+
+Definition vol_ok (cs : list (N * cmd)) (v : vstate) : Prop :=
+  v = v_init \/ exists sb sr n, In (v_ckidx v, CChecksum sb sr n (v_ck v)) cs.
+
+Lemma apply_vol_ok : forall cs d v i c d' v' r,
+  apply (d, v) i c = Some ((d', v'), r) -> In (i, c) cs -> vol_ok cs v -> vol_ok cs v'.
+Proof.
+  intros cs d v i c d' v' r H Hin Hv. unfold apply in H.
+  destruct (i <=? d_index d); [inv H; exact Hv|].
+  destruct c;
+    try (destruct (d_ro (set_index d i)); [inv H; exact Hv|];
+         match type of H with context [apply_mut ?a ?b] => destruct (apply_mut a b) as [[d2 r2]|] end;
+         [inv H; exact Hv|discriminate]);
+    try (inv H; exact Hv).
+  - inv H. right. cbn. eauto.
+  - destruct ((v_ckidx v =? idx) && negb (v_ck v =? ck)); [discriminate|inv H; exact Hv].
+Qed.
+
+Lemma apply_all_vol_ok : forall cs cs' d v d' v' r,
+  apply_all (d, v) cs' = Some ((d', v'), r) -> incl cs' cs -> vol_ok cs v -> vol_ok cs v'.
+Proof.
+  induction cs' as [|[i c] cs' IH]; intros d v d' v' r H Hi Hv; cbn in H; [inv H; exact Hv|].
+  destruct (apply (d, v) i c) as [[[d1 v1] res]|] eqn:E; [|discriminate].
+  destruct (apply_all (d1, v1) cs') as [[s2 rs]|] eqn:E2; [|discriminate]. inv H.
+  eapply IH; eauto.
+  - eapply incl_cons_inv; eauto.
+  - eapply apply_vol_ok; eauto. apply Hi. now left.
+Qed.
+
+Lemma apply_all_dapply_all : forall cs d v s' r,
+  apply_all (d, v) cs = Some (s', r) -> dapply_all d cs = Some (fst s', r).
+Proof.
+  induction cs as [|[i c] cs IH]; intros d v s' r H; cbn in H; [inv H; reflexivity|].
+  destruct (apply (d, v) i c) as [[[d1 v1] res]|] eqn:E; [|discriminate].
+  destruct (apply_all (d1, v1) cs) as [[s2 rs]|] eqn:E2; [|discriminate]. inv H.
+  apply apply_dapply in E. cbn in E. cbn [dapply_all]. rewrite E. erewrite IH; eauto.
+Qed.
+
+Lemma dapply_all_apply_all : forall cs cs' d v d' r,
+  dapply_all d cs' = Some (d', r) -> incl cs' cs ->
+  ck_consistent cs -> verify_not_initial cs -> vol_ok cs v ->
+  exists v', apply_all (d, v) cs' = Some ((d', v'), r).
+Proof.
+  induction cs' as [|[i c] cs' IH]; intros d v d' r H Hi Hc Hn Hv; cbn in H; [inv H; cbn; eauto|].
+  destruct (dapply d i c) as [[d1 res]|] eqn:E; [|discriminate].
+  destruct (dapply_all d1 cs') as [[d2 rs]|] eqn:E2; [|discriminate]. inv H.
+  assert (Hin : In (i, c) cs) by (apply Hi; now left).
+  destruct (dapply_apply d v i c d1 res E) as [v1 E1].
+  { intros ix ck -> _ Hx. destruct Hv as [-> | (sb & sr & n & Hck)].
+    - exfalso. eapply Hn; eauto.
+    - eapply Hc; eauto. }
+  destruct (IH d1 v1 _ _ E2) as [v2 E3]; auto.
+  - eapply incl_cons_inv; eauto.
+  - eapply apply_vol_ok; eauto.
+  - exists v2. cbn [apply_all]. rewrite E1, E3. reflexivity.
+Qed.
+
+Lemma incl_firstn : forall {A} n (l : list A), incl (firstn n l) l.
+Proof. intros A n l x H. rewrite <- (firstn_skipn n l). apply in_or_app. now left. Qed.
+Lemma incl_skipn : forall {A} n (l : list A), incl (skipn n l) l.
+Proof. intros A n l x H. rewrite <- (firstn_skipn n l). apply in_or_app. now right. Qed.
+
+Lemma restore_drestore : forall s snap, fst (restore s snap) = drestore (fst s) snap.
+Proof. intros [d v] snap. unfold restore, drestore. cbn. destruct (d_index snap <=? d_index d); reflexivity. Qed.
+
+Lemma vol_ok_init : forall cs, vol_ok cs v_init.
+Proof. intros; now left. Qed.
+
+Lemma replicas_agree_lemma :
+  forall (cs : list (N * cmd)) (k j sf : nat) sk rk sj rj sfull rfull,
+    (k <= j)%nat -> (j <= length cs)%nat -> (sf <= j)%nat ->
+    ck_consistent cs -> verify_not_initial cs ->
+    apply_all s_init (firstn k cs) = Some (sk, rk) ->
+    apply_all s_init (firstn j cs) = Some (sj, rj) ->
+    apply_all s_init cs = Some (sfull, rfull) ->
+    exists s' r',
+      apply_all (restore sk (snapshot sj)) (skipn sf cs) = Some (s', r') /\
+      fst s' = fst sfull /\ skipn (j - sf) r' = skipn j rfull.
+Proof.
+  intros cs k j sf sk rk sj rj sfull rfull Hkj Hj Hsf Hc Hn Hk Hjr Hfull.
+  pose proof (apply_all_dapply_all _ _ _ _ _ Hk) as Dk.
+  pose proof (apply_all_dapply_all _ _ _ _ _ Hjr) as Dj.
+  pose proof (apply_all_dapply_all _ _ _ _ _ Hfull) as Df.
+  destruct (replicas_agree_durable_lemma cs k j sf _ _ _ _ _ _ _ Hkj Hj Hsf Dk Dj Df) as (R & r' & E & Hr).
+  destruct sk as [dk vk].
+  assert (Hvk : vol_ok cs vk).
+  { eapply (apply_all_vol_ok cs (firstn k cs)); eauto using incl_firstn, vol_ok_init. }
+  remember (restore (dk, vk) (snapshot sj)) as s0. destruct s0 as [d0 v0].
+  assert (d0 = fst sj).
+  { change d0 with (fst (d0, v0)). rewrite Heqs0, restore_drestore. exact R. }
+  assert (v0 = vk).
+  { change v0 with (snd (d0, v0)). rewrite Heqs0. unfold restore. break_goal; reflexivity. }
+  subst d0 v0.
+  destruct (dapply_all_apply_all cs (skipn sf cs) (fst sj) vk _ _ E) as [v' E']; auto using incl_skipn.
+  exists (fst sfull, v'), r'. auto.
+Qed.
+
+(* restart: the database survives, the volatile fields are reset; already-applied commands are handed over again *)
+Lemma restart_agree_lemma :
+  forall (cs : list (N * cmd)) (m sf : nat) sm rm sfull rfull,
+    (m <= length cs)%nat -> (sf <= m)%nat ->
+    ck_consistent cs -> verify_not_initial cs ->
+    apply_all s_init (firstn m cs) = Some (sm, rm) ->
+    apply_all s_init cs = Some (sfull, rfull) ->
+    exists s' r',
+      apply_all (restart sm) (skipn sf cs) = Some (s', r') /\
+      fst s' = fst sfull /\ skipn (m - sf) r' = skipn m rfull.
+Proof.
+  intros cs m sf sm rm sfull rfull Hm Hsf Hc Hn Hmr Hfull.
+  pose proof (apply_all_dapply_all _ _ _ _ _ Hmr) as Dm.
+  pose proof (apply_all_dapply_all _ _ _ _ _ Hfull) as Df.
+  destruct (replicas_agree_durable_lemma cs m m sf _ _ _ _ _ _ _ (le_n m) Hm Hsf Dm Dm Df) as (_ & r' & E & Hr).
+  unfold restart.
+  destruct (dapply_all_apply_all cs (skipn sf cs) (fst sm) v_init _ _ E) as [v' E']; auto using incl_skipn, vol_ok_init.
+  exists (fst sfull, v'), r'. auto.
+Qed.
+
+(* the shape of DESIGN.md appendix C: consecutive indices starting at 1 *)
+Fixpoint index_from (i : N) (cs : list cmd) : list (N * cmd) :=
+  match cs with [] => [] | c :: r => (i, c) :: index_from (i + 1) r end.
